@@ -137,6 +137,9 @@ func main() {
 		for k := 0; k < rng.Intn(5); k++ {
 			preAnn[[]string{"org.example.a", "org.example.b", "team", "build", "io.example/x"}[k]] = fmt.Sprint("pre", k)
 		}
+		if rng.Intn(4) == 0 {
+			preAnn["org.example.reviewed"] = "" // an annotation with an empty value is still an annotation of the artifact
+		}
 		if len(preAnn) == 0 && rng.Bool() {
 			preAnn = nil
 		}
@@ -203,7 +206,7 @@ func main() {
 		// ---- options
 		mkOpts := func() optsT {
 			o := optsT{Format: lib.Formats[rng.Intn(2)]}
-			o.Ref = []string{"tag", "digest", "full-tag", "full-digest", "tag", "digest", "mismatch", "full-mismatch"}[rng.Intn(8)]
+			o.Ref = []string{"tag", "digest", "full-tag", "full-digest", "tag", "digest", "mismatch", "full-mismatch", "mismatch-sha512", "full-mismatch-sha384"}[rng.Intn(10)]
 			if onDisk && strings.Contains(o.Ref, "mismatch") {
 				o.Ref = "tag" // a real layout cannot resolve a digest it does not hold; covered by the in-memory repository
 			}
@@ -224,7 +227,7 @@ func main() {
 			case "mixed-colliding":
 				o.Metadata = map[string]string{"buildId": "1", existingKeys[0]: "overwritten"}
 			case "reserved":
-				o.Metadata = map[string]string{"io.cncf.notary.x": "y"}
+				o.Metadata = map[string]string{[]string{"io.cncf.notary.x", "io.cncf.notary", "io.cncf.notaryproject.owner", "io.cncf.notary#S256"}[rng.Intn(4)]: "y"}
 			case "mixed-reserved":
 				o.Metadata = map[string]string{"buildId": "1", "io.cncf.notaryproject": "y"}
 			}
@@ -267,6 +270,10 @@ func main() {
 				ref = digest.FromString("something else").String()
 			case "full-mismatch":
 				ref = "registry.example/repo@" + digest.FromString("something else").String()
+			case "mismatch-sha512": // a digest of another algorithm is still a digest - and not the one the repository resolves to
+				ref = digest.SHA512.FromString("something else").String()
+			case "full-mismatch-sha384":
+				ref = "registry.example/repo@" + digest.SHA384.FromString("something else").String()
 			}
 			resolvedSnap := snaps[tag]
 			if strings.Contains(o.Ref, "digest") {
